@@ -75,6 +75,18 @@ func checkC08(c Node) Verdict {
 			}
 		}
 	}
+	// the table's name is the caller's business: the same case with the table called dual / DUAL (a key of the document
+	// wins over the pseudo table of that name)
+	if c["fam"] == "nested" {
+		for _, name := range []string{"dual", "DUAL"} {
+			sql := Style{}.Query(With(q, "from", Table("", name)))
+			out := Run(map[string]any{name: DeepCopy(any(src)), "w": doc["w"]}, sql, false)
+			v.Execs++
+			if out.Err != nil || out.Panic != nil || !Equal(any(out.Rows), any(want)) {
+				return fail("result", sql, append(v.Sig, "table-named-"+name), "the table renamed to %s: want %s got %s", name, Canon(any(want)), out.Describe())
+			}
+		}
+	}
 	v.Nontrivial = len(concat) > 0 && len(parts) >= 2
 	// the same statement under an option set that every inner evaluation has to see as well: the literal 3 of
 	// `a = 3` read from the variables of the call (GETVAR), with a completion callback installed
